@@ -11,7 +11,7 @@ for s in $seeds; do
   d=$(mktemp -d /tmp/moqcopy.XXXXXX)
   rsync -a --exclude .git /repo/ $d/
   if ! (cd $d && patch -p1 -s < /verif/seeded/$s/patch.diff); then echo "$s: patch failed"; rm -rf $d; continue; fi
-  own=${s%[ab]}
+  own=${s%[a-z]}
   mkdir -p $d/.verif && cp known_findings.jsonl $d/.verif/
   line="$s:"
   for p in ${props:-$own}; do
